@@ -49,9 +49,35 @@ Definition rk_implements_b (herm upper : bool) (k : rk_call) (a c : mat) : bool 
   let t := rk_trans herm k in
   let uplo_u := (r_uplo k =? ch_U) in
   rk_legal k && (r_n k =? n) && (cols c =? n) && (rows a =? n) && (r_k k =? cols a) && negb (mconj c)
-  && (   (Bool.eqb uplo_u upper
+  && (   (((n <=? 1) || Bool.eqb uplo_u upper)          (* a 1 x 1 matrix is its own upper and lower triangle *)
           && ((n <=? 0) || ((r_pc k =? mbase c) && agree n n 1 (r_ldc k) (s0 c) (s1 c)))
           && op_is t (r_pa k) (r_lda k) a n (cols a))
-      || (Bool.eqb uplo_u (negb upper)
+      || (((n <=? 1) || Bool.eqb uplo_u (negb upper))
           && ((n <=? 0) || ((r_pc k =? mbase c) && agree n n (r_ldc k) 1 (s0 c) (s1 c)))
           && op_is t (r_pa k) (r_lda k) (if herm then conj_mat a else a) n (cols a))).
+
+(* ------------------------------------------------------------------------------------------ *)
+(* Named conditions under which a call site of syrk (601-604) / herk (701-713) is right.       *)
+(* n = rows c = rows a, K = cols a.  Proved: Proofs/BlasC13RankKSites.v.                        *)
+(*  - 601: syrk.hpp:24 passes k = size(a) and ldc = cc.rotated().size(): right only for a       *)
+(*    square a and an unpadded, non-empty c;                                                    *)
+(*  - every site assumes, without checking, that the OTHER stride of a / c is 1 (s1 a = 1,      *)
+(*    s1 c = 1 below) and takes leading dimensions from strides that wf_mat bounds only for     *)
+(*    operands with two or more rows / columns;                                                 *)
+(*  - 704: herk.hpp:130 is right only for n <= 1 (it computes the conjugate triangle).          *)
+(* ------------------------------------------------------------------------------------------ *)
+Definition rk_site_cond (k : rk_call) (a c : mat) : bool :=
+  let n := rows c in let K := cols a in
+  let s := r_site k in
+  let lda_n := (2 <=? K) || (n <=? s1 a) in                 (* lda = s1 a >= max 1 n  ('N' sites, s0 a = 1) *)
+  let lda_k := (2 <=? n) || (K <=? s0 a) in                 (* lda = s0 a >= max 1 K  ('T'/'C' sites) *)
+  let a_rows_contig := (K <=? 1) || (s1 a =? 1) in          (* unchecked: the elements of a row of a are adjacent *)
+  let c_rows_contig := (n <=? 1) || (s1 c =? 1) in          (* unchecked: the elements of a row of c are adjacent *)
+  if s =? 601 then (rows a =? cols a) && ((n <=? 1) || (s1 c =? n)) && (1 <=? n) && lda_n
+  else if (s =? 602) || (s =? 701) then c_rows_contig && lda_n
+  else if (s =? 603) || (s =? 703) then a_rows_contig && lda_k
+  else if (s =? 604) || (s =? 711) then c_rows_contig && a_rows_contig && lda_k
+  else if (s =? 702) || (s =? 712) then true
+  else if s =? 713 then lda_n
+  else if s =? 704 then (n <=? 1) && a_rows_contig && (K <=? s0 a)
+  else false.
